@@ -51,6 +51,9 @@ class HttpProtocolHandler(BaseTcpServerHandler[HttpClientConnection]):
         self.plugin: Optional[HttpProtocolHandlerPlugin] = None
         self.writes_teared: bool = False
         self.reads_teared: bool = False
+        # Whether the plugin, when last asked, still had data queued for
+        # one of its own descriptors (e.g. client data bound for upstream)
+        self.plugin_has_pending_writes: bool = False
 
     ##
     # initialize, is_inactive, shutdown, get_events, handle_events
@@ -116,9 +119,18 @@ class HttpProtocolHandler(BaseTcpServerHandler[HttpClientConnection]):
     async def get_events(self) -> SelectableEvents:
         # Get default client events
         events: SelectableEvents = await super().get_events()
+        # Once reads have teared down only pending writes remain,
+        # client (possibly at EOF, hence always readable) is no longer read.
+        if self.reads_teared:
+            fileno = self.work.connection.fileno()
+            if events.get(fileno, 0) & selectors.EVENT_READ:
+                events[fileno] &= ~selectors.EVENT_READ
+                if not events[fileno]:
+                    del events[fileno]
         # HttpProtocolHandlerPlugin.get_descriptors
         if self.plugin:
             plugin_read_desc, plugin_write_desc = await self.plugin.get_descriptors()
+            self.plugin_has_pending_writes = len(plugin_write_desc) > 0
             for rfileno in plugin_read_desc:
                 if rfileno not in events:
                     events[rfileno] = selectors.EVENT_READ
@@ -162,7 +174,13 @@ class HttpProtocolHandler(BaseTcpServerHandler[HttpClientConnection]):
                     )
         # Wait until client buffer has flushed when reads has teared down but we can still write
         if self.reads_teared and not self.work.has_buffer():
-            return True
+            # Data accepted from the client but still queued by the plugin
+            # (e.g. for upstream) must be flushed too before tear down.
+            if self.plugin and self.plugin_has_pending_writes:
+                self.plugin_has_pending_writes = len(
+                    (await self.plugin.get_descriptors())[1],
+                ) > 0
+            return not self.plugin_has_pending_writes
         return False
 
     def handle_data(self, data: memoryview) -> Optional[bool]:
